@@ -1,5 +1,5 @@
 """C12 — reset restores the initial machine exactly."""
-from ..facts import callee_of, short, sp_file_line, expr_str, place_fields
+from ..facts import callee_of, short, sp_file_line, expr_str, expr_walk, place_fields
 from .. import kit, dbg
 from ..effects import Effects
 
@@ -158,6 +158,16 @@ def run(ctx):
                     if src[0] == "field" and src[2] == snap:
                         ok_src = True
                         assign_bbs.add(b)
+    # `state.clone_from(&self.<snap>)` through the *provided* Clone::clone_from (which is `*self = source.clone()`) is the same total assignment;
+    # a hand-written clone_from resolves to the type's own method and is not accepted here
+    for b, t, c in disp.calls():
+        if b in region and c == "core::clone::Clone::clone_from" and (t["f"].get("targs") or [""])[0].endswith("runtime::RunState"):
+            dst = disp.expr(t["args"][0], 8)
+            src = kit.strip_refs(disp.expr(t["args"][1], 8))
+            if any(x[0] == "arg" and x[1] == sp for x in expr_walk(dst)) and src[0] == "field" and src[2] == snap:
+                ok_src = True
+                assign_bbs.add(b)
+                whole = whole or [(b, "call:core::clone::Clone::clone_from", (), t.get("sp"))]
     ok = bool(whole) and ok_src
     # ... on every path through the arm (a reset that is skipped under some condition is not a reset)
     sm = disp.succ_map()
@@ -176,7 +186,7 @@ def run(ctx):
         ctx.violation("reset-not-total", sp_file_line(disp.term(arms["Reset"]).get("sp")),
                       "the reset arm does not assign the entire machine state from a clone of the saved initial state "
                       "(writes seen: %s)" % [[w[1], ".".join(w[2]) or "*"] for w in ws])
-    others = [w for w in ws if not (w[2] == () and w[1] in ("assign", "drop"))]
+    others = [w for w in ws if not (w[2] == () and (w[1] in ("assign", "drop") or (w[1] == "call:core::clone::Clone::clone_from" and w[0] in assign_bbs)))]
     ctx.oblig(not others)
     for b, kind, path, span in others:
         ctx.violation("reset-extra-write|%s" % (".".join(path) or "*"), sp_file_line(span),
